@@ -1072,7 +1072,7 @@ REQUIRED = (
     + ["overwrite_layout:%s" % l for l in LAYOUTS]
     + ["layout:%s" % l for l in LAYOUTS]
     + ["update_after_adopted_batch_was_overwritten:%s" % n for n in ADOPTERS]
-    + ["drift:%s" % n for n in FAMILIES if n != "MD3"]
+    + ["drift:%s" % n for n in FAMILIES]
     + ["call:MD3.update", "call:MD3.set_reference", "call:MD3.give_oracle_label"]
     + ["injector:%s" % n for n in INJECTORS]
 )
